@@ -21,6 +21,8 @@ import (
 	"github.com/samsarahq/thunder/graphql"
 	"github.com/samsarahq/thunder/graphql/schemabuilder"
 	"github.com/samsarahq/thunder/internal"
+	"github.com/samsarahq/thunder/livesql"
+	"github.com/samsarahq/thunder/reactive"
 	"github.com/samsarahq/thunder/sqlgen"
 )
 
@@ -609,4 +611,119 @@ func kfReproC10(rep *Report) {
 		return false, ""
 	})
 	rep.Repros["C10-11"] = Repro{Fails: f, Detail: d}
+}
+
+// ---- C07 ------------------------------------------------------------------------------------------------------
+
+type kfC07Row struct {
+	Id int64 `sql:",primary"`
+	N  int64
+}
+
+// kfC07Live runs f once inside a rerunner (the way a live query runs) and returns what it returned
+func kfC07Live(f func(ctx context.Context) (string, error)) (string, error) {
+	type res struct {
+		s   string
+		err error
+	}
+	ch := make(chan res, 1)
+	rr := reactive.NewRerunner(context.Background(), func(ctx context.Context) (interface{}, error) {
+		s, err := f(ctx)
+		select {
+		case ch <- res{s, err}:
+		default:
+		}
+		return nil, nil
+	}, time.Hour, false)
+	defer rr.Stop()
+	select {
+	case r := <-ch:
+		return r.s, r.err
+	case <-patient(5 * time.Second):
+		return "", errors.New("the computation did not finish")
+	}
+}
+
+func kfC07DB(rows ...[2]int64) *livesql.LiveDB {
+	fdb, conn := newFakeDB()
+	fdb.createTable("kfc07", []string{"id", "n"}, []string{"id"})
+	for _, r := range rows {
+		fdb.tables["kfc07"].Rows = append(fdb.tables["kfc07"].Rows, map[string]driverValue{"id": r[0], "n": r[1]})
+	}
+	schema := sqlgen.NewSchema()
+	schema.MustRegisterType("kfc07", sqlgen.UniqueId, kfC07Row{})
+	return livesql.NewLiveDB(sqlgen.NewDB(conn, schema))
+}
+
+func kfC07Ns(rows []*kfC07Row) string {
+	var ns []int64
+	for _, r := range rows {
+		ns = append(ns, r.N)
+	}
+	sort.Slice(ns, func(i, j int) bool { return ns[i] < ns[j] })
+	return fmt.Sprint(ns)
+}
+
+func kfReproC07(rep *Report) {
+	// C07-2: two databases read in one computation shared a cache entry
+	f, d := kfTry(func() (bool, string) {
+		a, b := kfC07DB([2]int64{1, 10}), kfC07DB([2]int64{1, 20})
+		got, err := kfC07Live(func(ctx context.Context) (string, error) {
+			var ra, rb []*kfC07Row
+			if err := a.Query(ctx, &ra, sqlgen.Filter{"id": int64(1)}, nil); err != nil {
+				return "", err
+			}
+			if err := b.Query(ctx, &rb, sqlgen.Filter{"id": int64(1)}, nil); err != nil {
+				return "", err
+			}
+			return kfC07Ns(ra) + " " + kfC07Ns(rb), nil
+		})
+		if err != nil {
+			return true, err.Error()
+		}
+		if got != "[10] [20]" {
+			return true, "the same live query on databases holding n=10 and n=20, in one computation, returned " + got
+		}
+		return false, ""
+	})
+	rep.Repros["C07-2"] = Repro{Fails: f, Detail: d}
+	// C07-3: one SelectOptions value used by two live queries accumulated their filters
+	f, d = kfTry(func() (bool, string) {
+		db := kfC07DB([2]int64{1, 10}, [2]int64{2, 20})
+		opts := &sqlgen.SelectOptions{OrderBy: "id"}
+		got, err := kfC07Live(func(ctx context.Context) (string, error) {
+			var r1, r2 []*kfC07Row
+			if err := db.Query(ctx, &r1, sqlgen.Filter{"id": int64(1)}, opts); err != nil {
+				return "", err
+			}
+			if err := db.Query(ctx, &r2, sqlgen.Filter{"id": int64(2)}, opts); err != nil {
+				return "", err
+			}
+			return kfC07Ns(r1) + " " + kfC07Ns(r2), nil
+		})
+		if err != nil {
+			return true, err.Error()
+		}
+		if got != "[10] [20]" || opts.Where != "" || opts.AllowNoIndex {
+			return true, fmt.Sprintf("two live queries (id = 1, id = 2) sharing one SelectOptions value returned %s; the caller's options afterwards: Where %q", got, opts.Where)
+		}
+		return false, ""
+	})
+	rep.Repros["C07-3"] = Repro{Fails: f, Detail: d}
+	// C07-4: the tester kept the caller's pointer
+	f, d = kfTry(func() (bool, string) {
+		schema := sqlgen.NewSchema()
+		schema.MustRegisterType("kfc07", sqlgen.UniqueId, kfC07Row{})
+		n := int64(1)
+		t, err := schema.MakeTester("kfc07", sqlgen.Filter{"n": &n})
+		if err != nil {
+			return false, ""
+		}
+		n = 3 // the caller goes on with its variable
+		if !t.Test(&kfC07Row{Id: 1, N: 1}) || t.Test(&kfC07Row{Id: 2, N: 3}) {
+			return true, "a tester made for n = 1 (filter value given by pointer) compares with 3 after the caller has changed its variable"
+		}
+		return false, ""
+	})
+	rep.Repros["C07-4"] = Repro{Fails: f, Detail: d}
 }
